@@ -1,6 +1,7 @@
 package projgen
 
 import (
+	"encoding/json"
 	"fmt"
 	"strings"
 
@@ -27,6 +28,10 @@ type Profile struct {
 	PrefixParams     bool // controller prefixes may carry {params} that every method binds with @Path
 	DupWire          bool // two parameters of one location may share a wire name
 	PtrPathParams    bool // path parameters may be declared as pointers
+	NoNamedInMaps    bool // no map[string]<declared type> as body or result (finding F-C09-2: such routes yield uncompilable code)
+	CollidingNames   bool // parameter names that collide with template locals / each other after camel-casing
+	Experimental     bool // draw experimental flags, response validation and a package name
+	FlatStructs      bool // struct fields limited to string/int/bool/float/[]string without tags (bodies the router harness can synthesise)
 	RichValidators   bool // draw validators from the whole vocabulary both spec converters understand
 	VarySchemes      bool // draw the security scheme catalogue of the configuration
 	UndeclaredScheme bool // sometimes let routes name a scheme the configuration does not declare
@@ -361,7 +366,45 @@ func GenProject(t *rapid.T, pf Profile) *Project {
 	if pf.Enforce {
 		p.Config.Enforce = rapid.Bool().Draw(t, "enforce")
 	}
+	if pf.Experimental {
+		p.Config.TopLevelEnum = rapid.Bool().Draw(t, "topLevelEnum")
+		p.Config.EnumValidator = rapid.Bool().Draw(t, "enumValidator")
+		p.Config.ValidateResp = rapid.Bool().Draw(t, "validateResp")
+		if rapid.Bool().Draw(t, "pkgName") {
+			p.Config.PackageName = rapid.SampledFrom([]string{"myroutes", "api_routes", "gen"}).Draw(t, "packageName")
+		}
+	}
 	return p
+}
+
+// CollidingNamePool: names the generated handlers use themselves, package names they import, and
+// snake/camel variants that collapse after lower-camel-casing.
+var CollidingNamePool = []string{"value", "opError", "controller", "statusCode", "authErr", "conversionErr", "w", "req", "ginCtx", "echoCtx", "fiberCtx", "engine", "ctx2", "err",
+	"user_id", "userId", "UserID", "json", "http", "runtime", "fmt", "strconv", "validatorErr", "middleware", "key", "emptyErr", "stdError", "validationError"}
+
+// RenameColliding returns a copy of the project in which every parameter named like an entry of
+// CollidingNamePool is renamed (wire names kept), and whether anything was renamed.
+func RenameColliding(p *Project) (*Project, bool) {
+	b, _ := json.Marshal(p)
+	var q Project
+	_ = json.Unmarshal(b, &q)
+	changed := false
+	for _, c := range q.Controllers {
+		for _, m := range c.Methods {
+			for i := range m.Params {
+				for _, n := range CollidingNamePool {
+					if m.Params[i].Name == n {
+						if m.Params[i].Wire == "" && m.Params[i].In != "context" && m.Params[i].In != "body" {
+							m.Params[i].Wire = n
+						}
+						m.Params[i].Name = "prm" + strings.ToUpper(n[:1]) + n[1:] + "Zz"
+						changed = true
+					}
+				}
+			}
+		}
+	}
+	return &q, changed
 }
 
 // ExcludedConflictingRules counts rule combinations dropped by construction (evidence only).
@@ -478,6 +521,19 @@ func genExtraParams(t *rapid.T, pf Profile, m *Method, types *typeCtx) {
 	hasBody := false
 	for i := 0; i < n; i++ {
 		prm := Param{Name: fmt.Sprintf("%s%d", rapid.SampledFrom([]string{"q", "limit", "flag", "hdr", "val"}).Draw(t, "xname"), i)}
+		if pf.CollidingNames && rapid.IntRange(0, 2).Draw(t, "collide") == 0 {
+			// names the generated handlers use themselves, snake/camel variants that collapse after ToLowerCamel
+			cand := rapid.SampledFrom(CollidingNamePool).Draw(t, "collidingName")
+			clash := false
+			for _, o := range m.Params {
+				if o.Name == cand {
+					clash = true
+				}
+			}
+			if !clash {
+				prm.Name = cand
+			}
+		}
 		ins := []string{"query", "query", "header"}
 		if bodyMode == "form" {
 			ins = append(ins, "form", "form")
@@ -585,4 +641,12 @@ var FullProfile = Profile{
 var SecurityProfile = Profile{
 	MaxControllers: 3, MaxMethods: 4, CtrlPackages: []string{"api", "api2"},
 	Hidden: true, Security: true, Enforce: true, ExtraParams: 1, SharedPrefix: true, VarySchemes: true, UndeclaredScheme: true,
+}
+
+// RouterProfile: batch projects for the router lab (many routes per project, bodies the harness can synthesise).
+var RouterProfile = Profile{
+	MaxControllers: 4, MaxMethods: 8, CtrlPackages: []string{"api", "api2", "internal/api3"},
+	Decoys: true, Hidden: true, Security: true, ExtraParams: 4, Types: true, TypePackages: []string{"models", "shared"}, FlatStructs: true,
+	Validators: true, Responses: true, SlashNoise: true, SharedPrefix: true, PtrParams: true, FormParams: true,
+	ContextParams: true, GroupedParams: true, SliceQuery: true, PtrPathParams: false,
 }
